@@ -2,7 +2,8 @@
 (* Recorded calls on real Table objects checked against TableLayout (what a render draws) and TableObject (which
    rows and header a table has after a history of calls).  A trace is a list of events; every event carries
    every field:
-     op                                   "render" | "set_header" | "add_row" | "set_row" | "set_rows"
+     op                                   "render" | "set_header" | "add_row" | "add_rows" | "set_row" | "set_rows" |
+                                          "align" (set_column_alignment(idx, a) on the table's style object)
      fromObj                              FALSE: a render of a table the driver built in one go, described by
                                           n, hdr, rows;  TRUE: a call on the one Table object of this trace, whose
                                           rows and header are those the TableObject model has at that moment
@@ -12,6 +13,8 @@
      tagged                               cells (numbers, row-major) that contain <b>..</b> style tags in the real table
      before, after                        projection of the table's own rows read before / after the call
                                           (tag characters appear as code 9)
+     cb, ca                               projection of the row / header objects the caller handed to the table so
+                                          far, read before / after the call
      obs = [kind ("ok"|"exc"), cls, lines]   what the call did: exception class, or (render) the written lines
                                           (visible characters, escape sequences removed, as codes)
      runA                                 whether the A-layer is to be run on this render as well (DRIFT only)
@@ -28,11 +31,12 @@ T == Traces[tid]
 Ev == T[l]
 InpOf(e) == IF e.fromObj
             THEN [n |-> tbl.ncols, hdr |-> tbl.hdr # <<>>, rows |-> ShownRows(tbl), style |-> e.style, T |-> e.T,
-                  ind |-> e.ind, al |-> AlignOf(tbl.ncols, e.calls)]
+                  ind |-> e.ind, al |-> AlignOf(tbl.ncols, tbl.calls)]
             ELSE [n |-> e.n, hdr |-> e.hdr, rows |-> e.rows, style |-> e.style, T |-> e.T, ind |-> e.ind,
                   al |-> AlignOf(e.n, e.calls)]
 \* a table without body rows draws nothing: no clause applies
-Drawn(e) == IF e.fromObj THEN Shows(tbl) ELSE TRUE
+\* (nor when the style carries an alignment for a column the table does not have: caller error)
+Drawn(e) == IF e.fromObj THEN Shows(tbl) /\ Len(AlignList(tbl.calls)) <= tbl.ncols ELSE TRUE
 
 TInit == /\ tid \in 1..NTraces /\ l = 1 /\ orc = 0 /\ ph = "begin" /\ tbl = Empty
          /\ Idle([n |-> 0])
@@ -42,6 +46,8 @@ Applied(e) == CASE e.op = "set_header" -> FSetHeader(tbl, e.row)
                 [] e.op = "add_row" -> FAddRow(tbl, e.row)
                 [] e.op = "set_row" -> FSetRow(tbl, e.idx, e.row)
                 [] e.op = "set_rows" -> FSetRows(tbl, e.rws)
+                [] e.op = "add_rows" -> FAddRows(tbl, e.rws)
+                [] e.op = "align" -> FAlign(tbl, e.idx, e.a)
 TObjOp ==
   /\ l <= Len(T) /\ ph = "begin" /\ Ev.op # "render"
   /\ LET r == Applied(Ev)
@@ -81,19 +87,20 @@ ExcKey(e) == IF e.tagged # <<>> THEN e.obs.cls \o "/tagged-cell" ELSE e.obs.cls
 Clauses(e) ==
   LET i == InpOf(e)
       L == e.obs.lines
-  IN IF ~Drawn(e) THEN Note(tid, l, "A.lines", e.obs.kind = "ok" /\ L = <<>>)
+  IN IF ~Drawn(e) THEN (IF e.fromObj /\ tbl.rows = <<>> THEN Note(tid, l, "A.lines", e.obs.kind = "ok" /\ L = <<>>) ELSE TRUE)
      ELSE
      /\ Check(tid, l, "H.input", "", WellFormed(i))
-     /\ IF e.fromObj THEN Note(tid, l, "A.state", e.before = i.rows)
-        ELSE Check(tid, l, "H.before", "", \A r \in 1..NRows(i) : \A k \in 1..i.n :
+     /\ IF e.obs.kind = "exc"                  \* building the table or rendering it raised: nothing else to look at
+        THEN (IF Pre(i) THEN Check(tid, l, "P.succeeds", ExcKey(e), FALSE) ELSE TRUE)
+        ELSE /\ IF e.fromObj THEN Note(tid, l, "A.state", e.before = i.rows)
+                ELSE Check(tid, l, "H.before", "", Len(e.before) = NRows(i) /\ \A r \in 1..NRows(i) : Len(e.before[r]) = i.n /\ \A k \in 1..i.n :
                                          SelectSeq(e.before[r][k], LAMBDA x : x # UNK) = i.rows[r][k])
-     /\ IF ~Pre(i) THEN TRUE
-        ELSE /\ Check(tid, l, "P.succeeds", ExcKey(e), e.obs.kind = "ok")
-             /\ Check(tid, l, "P.unchanged", "", e.after = e.before)
-             /\ Check(tid, l, "P.fits", "", Fits(i, L))
-             /\ Check(tid, l, "P.rectangle", "", Rectangle(i, L))
-             /\ Check(tid, l, "P.aligned", "", Aligned(i, L))
-             /\ Check(tid, l, "P.textkept", TextKey(e), TextKept(i, L))
+             /\ IF ~Pre(i) THEN TRUE
+                ELSE /\ Check(tid, l, "P.unchanged", IF e.after = e.before THEN "caller" ELSE "", e.after = e.before /\ e.ca = e.cb)
+                     /\ Check(tid, l, "P.fits", "", Fits(i, L))
+                     /\ Check(tid, l, "P.rectangle", "", Rectangle(i, L))
+                     /\ Check(tid, l, "P.aligned", "", Aligned(i, L))
+                     /\ Check(tid, l, "P.textkept", TextKey(e), TextKept(i, L))
      /\ Note(tid, l, "A.lines", AMatches(e))
 
 TCompare ==
